@@ -54,10 +54,49 @@ def build(case, form):
     return so.sig_relaxation(f, X=X, form=form, **kw)
 
 
+def audit_case(ctx, rng, c, pinned=None):
+    n = c['f']['n']
+    vals = {}
+    for form in ('primal', 'dual'):
+        try:
+            prob = build(c, form)
+        except Exception:  # noqa: BLE001
+            continue
+        vals[form] = rm.solve_ecos(prob)
+    ctx.case({'stream': 'audit', 'case': c})
+    ctx.count('stream:audit')
+    pts = rm.box_points(rng, n, c['box'], 30) + ([list(pinned)] if pinned else [])
+    fmin = min(rm.sig_eval_leaf(c['f'], x) for x in pts)
+    for form, (s, v) in vals.items():
+        if s != 'solved':
+            ctx.incon('audit: %s status %s' % (form, s))
+            continue
+        if math.isfinite(v) and v > fmin + 1e-5 * max(1.0, abs(fmin)):
+            x = min(pts, key=lambda z: rm.sig_eval_leaf(c['f'], z))
+            ctx.violation('bound: the %s relaxation value %.8g exceeds f(x) = %.8g at the point x = %s of X' % (form, v, fmin, x),
+                          {'stream': 'audit', 'form': form, 'case': c, 'value': v, 'point': x})
+        if form == 'dual' and v == math.inf:
+            ctx.violation('bound: the dual relaxation over a nonempty X is reported infeasible (+inf)',
+                          {'stream': 'audit', 'form': form, 'case': c})
+        if form == 'primal' and v == math.inf:
+            ctx.violation('bound: the primal relaxation (a maximisation) is reported +inf although f is finite on X',
+                          {'stream': 'audit', 'form': form, 'case': c})
+    if all(k in vals and vals[k][0] == 'solved' for k in ('primal', 'dual')):
+        vp, vd = vals['primal'][1], vals['dual'][1]
+        if vp > vd + 1e-5 * max(1.0, abs(vd)) and not (math.isinf(vp) and math.isinf(vd)):
+            ctx.violation('weak duality: primal value %.8g exceeds dual value %.8g' % (vp, vd), {'stream': 'audit', 'case': c})
+        elif math.isfinite(vp) and math.isfinite(vd):
+            if abs(vp - vd) > 1e-4 * max(1.0, abs(vd)):
+                ctx.incon('audit: finite primal and dual values differ by more than 1e-4 (strong duality is only observed)')
+            else:
+                ctx.count('audit:primal=dual')
+
+
 def run(ctx):
     rng = ctx.rng
     ctx.lean = common.lean_check('C03')
     quick = ctx.quick()
+    common.run_regressions(ctx, 'C03', recheck)
     N = 60 if quick else 400
     cases = [gen_case(rng) for _ in range(N)]
     lines, impl = [], []
@@ -95,41 +134,7 @@ def run(ctx):
     # ---- audit
     naud = 40 if quick else 300
     for c in cases[:naud]:
-        n = c['f']['n']
-        vals = {}
-        for form in ('primal', 'dual'):
-            try:
-                prob = build(c, form)
-            except Exception:  # noqa: BLE001
-                continue
-            vals[form] = rm.solve_ecos(prob)
-        ctx.case({'stream': 'audit', 'case': c})
-        ctx.count('stream:audit')
-        pts = rm.box_points(rng, n, c['box'], 30)
-        fmin = min(rm.sig_eval_leaf(c['f'], x) for x in pts)
-        for form, (s, v) in vals.items():
-            if s != 'solved':
-                ctx.incon('audit: %s status %s' % (form, s))
-                continue
-            if math.isfinite(v) and v > fmin + 1e-5 * max(1.0, abs(fmin)):
-                x = min(pts, key=lambda z: rm.sig_eval_leaf(c['f'], z))
-                ctx.violation('bound: the %s relaxation value %.8g exceeds f(x) = %.8g at the point x = %s of X' % (form, v, fmin, x),
-                              {'stream': 'audit', 'form': form, 'case': c, 'value': v, 'point': x})
-            if form == 'dual' and v == math.inf:
-                ctx.violation('bound: the dual relaxation over a nonempty X is reported infeasible (+inf)',
-                              {'stream': 'audit', 'form': form, 'case': c})
-            if form == 'primal' and v == math.inf:
-                ctx.violation('bound: the primal relaxation (a maximisation) is reported +inf although f is finite on X',
-                              {'stream': 'audit', 'form': form, 'case': c})
-        if all(k in vals and vals[k][0] == 'solved' for k in ('primal', 'dual')):
-            vp, vd = vals['primal'][1], vals['dual'][1]
-            if vp > vd + 1e-5 * max(1.0, abs(vd)) and not (math.isinf(vp) and math.isinf(vd)):
-                ctx.violation('weak duality: primal value %.8g exceeds dual value %.8g' % (vp, vd), {'stream': 'audit', 'case': c})
-            elif math.isfinite(vp) and math.isfinite(vd):
-                if abs(vp - vd) > 1e-4 * max(1.0, abs(vd)):
-                    ctx.incon('audit: finite primal and dual values differ by more than 1e-4 (strong duality is only observed)')
-                else:
-                    ctx.count('audit:primal=dual')
+        audit_case(ctx, rng, c)
     if (not ctx.lean.ok or ctx.disagreements) and not ctx.violations:
         common.broken_report(ctx, 'bound audit (sampled points of X, primal vs dual) found no failing input among %d audited instances' % naud)
     return ctx.finish(
@@ -140,17 +145,16 @@ def run(ctx):
         trusted=TRUSTED, assumptions=ASSUME)
 
 
+def recheck(r):
+    """execute the stored input of a violation again; the violation it (still) shows, or None"""
+    import random
+    ctx = common.RecCtx()
+    if r.get('stream') == 'audit':
+        audit_case(ctx, random.Random(0), r['case'], pinned=r.get('point'))
+    return ctx.first()
+
+
 def replay(obj):
     print('what:', obj['what'])
-    r = obj['replay']
-    if 'case' in r and r.get('stream') == 'audit':
-        import random
-        c = r['case']
-        for form in ('primal', 'dual'):
-            try:
-                print(form, rm.solve_ecos(build(c, form)))
-            except Exception as e:  # noqa: BLE001
-                print(form, 'raised', e)
-        if 'point' in r:
-            print('f(point) =', rm.sig_eval_leaf(c['f'], r['point']))
+    print(common.canon_json(obj['replay'])[:1500])
     return 1
